@@ -1,5 +1,3 @@
-//go:build !vsreal
-
 // Package c03: the stream lifecycle follows the documented state machine. A real
 // drpcstream.Stream is driven through every operation/packet sequence up to a
 // bound and compared step by step with harness/refstream.
